@@ -118,14 +118,59 @@ def sub_class():
     return _SUB[0]
 
 
-def build(spec):
+# non-Table arguments that carry the content of the table they are compared with (built from `self`)
+NT_CARRIERS = ["own_df", "twin_df", "df_copy", "plain_df", "series", "tuple_name_df", "list_name_df", "duck", "repr",
+               "column_proxies", "dict_of_columns", "tdf_subclass_view"]
+NT_UNRELATED = ["none", "int", "str", "float", "list", "dict", "df", "tdf", "type"]
+
+
+def build_non_table(kind, ctx):
+    """a non-Table argument; `ctx` = (self table, its spec) for the kinds derived from the table itself"""
+    import types
+    import pandas as pd
+    from pdtable import Table
+    if kind in NT_UNRELATED:
+        return {"none": None, "int": 42, "str": "a string", "float": 3.5, "list": [1, 2], "dict": {"name": "t"},
+                "df": pd.DataFrame({"c": [1, 2]}), "type": Table,
+                "tdf": Table(pd.DataFrame({"c": [1, 2]}), name="t", units=["m"]).df}[kind]
+    if ctx is None:
+        raise InfraError("non-Table argument '" + kind + "' needs the table it is derived from")
+    a, a_spec = ctx
+    if kind == "own_df":
+        return a.df                                   # the table's own backing TableDataFrame
+    if kind == "twin_df":
+        return build(a_spec).df                       # backing TableDataFrame of an equal table
+    if kind == "df_copy":
+        return a.df.copy()                            # TableDataFrame copy (metadata travels along)
+    if kind == "tdf_subclass_view":
+        return a.df.iloc[:, :]                        # TableDataFrame produced by a pandas operation
+    if kind == "plain_df":
+        return pd.DataFrame(a.df)
+    if kind == "series":
+        return a.df.iloc[:, 0] if a.df.shape[1] else pd.Series([1, 2], name=a.name)
+    if kind == "tuple_name_df":
+        return (a.name, a.df)
+    if kind == "list_name_df":
+        return [a.name, a.df]
+    if kind == "duck":
+        return types.SimpleNamespace(name=a.name, df=a.df, _df=a.df, metadata=a.metadata, units=a.units,
+                                     column_names=a.column_names, destinations=a.destinations,
+                                     table_data=a.table_data, equals=a.equals)
+    if kind == "repr":
+        return repr(a)
+    if kind == "column_proxies":
+        return a.column_proxies
+    if kind == "dict_of_columns":
+        return {c: a.df[c].tolist() for c in a.column_names}
+    raise InfraError("unknown non-Table kind " + kind)
+
+
+def build(spec, ctx=None):
     """spec -> real Table (or the non-Table argument)"""
     import pandas as pd
     from pdtable import Table
     if "nt" in spec:
-        return {"none": None, "int": 42, "str": "a string", "float": 3.5, "list": [1, 2], "dict": {"name": "t"},
-                "df": pd.DataFrame({"c": [1, 2]}), "type": Table,
-                "tdf": Table(pd.DataFrame({"c": [1, 2]}), name="t", units=["m"]).df}[spec["nt"]]
+        return build_non_table(spec["nt"], ctx)
     n = spec["nrows"]
     idx = pd.Index(spec["index"]) if spec["index"] is not None else pd.RangeIndex(n)
     # every column as a Series of the final dtype on the final index: no inference, no alignment
@@ -303,7 +348,7 @@ def mutate(rng, spec, kind):
                                  [float(i) for i in range(n)], [0] * n, list(range(n))])
         return s, None
     if kind == "non_table":
-        return {"nt": rng.choice(["none", "int", "str", "float", "list", "dict", "df", "tdf", "type"])}, False
+        return {"nt": rng.choice(NT_UNRELATED)}, False
     if kind == "add_row":
         for c in cols:
             c["values"].insert(rng.randint(0, n), copy.deepcopy(rng.choice(POOL[c["kind"]])))
@@ -449,7 +494,7 @@ def eval_pair(case, out, ops, pend, model_ok, record=True):
     with warnings.catch_warnings():
         warnings.simplefilter("ignore")
         a = build(case["a"])
-        b = build(case["b"])
+        b = build(case["b"], ctx=(a, case["a"]))
         try:
             ab = a.equals(b)
             ba = b.equals(a) if isinstance(b, Table) else None
@@ -470,7 +515,8 @@ def eval_pair(case, out, ops, pend, model_ok, record=True):
     same_class = isinstance(b, Table) and type(a) is type(b)
     if not isinstance(b, Table):
         if ab is not False:
-            out.fail("comparison with a non-Table is not False", case, ab, False, key="non_table")
+            out.fail(f"comparison with a non-Table ({type(b).__name__}) is not False", case, ab, False,
+                     key="non_table:" + case["b"].get("nt", "?"))
     elif same_class:
         if not aa:
             out.fail("equals is not reflexive", case, aa, True, key="reflexive")
@@ -509,6 +555,11 @@ def cases(rng, tier, seed):
                 continue
             yield {"seed": seed, "index": idx, "mutation": kind, "expected": exp, "a": copy.deepcopy(base), "b": m}
             idx += 1
+        # non-Table arguments carrying the table's own content: its backing TableDataFrame, copies, wrappers, ducks
+        for nt in ["own_df", "twin_df", "df_copy"] + rng.sample(NT_CARRIERS[3:], 3):
+            yield {"seed": seed, "index": idx, "mutation": "non_table:" + nt, "expected": False,
+                   "a": copy.deepcopy(base), "b": {"nt": nt}}
+            idx += 1
         # unrelated pairs from a small space (so that equal ones occur) and from the full space
         yield {"seed": seed, "index": idx, "mutation": "random_small", "a": gen_spec(rng, True), "b": gen_spec(rng, True)}
         idx += 1
@@ -544,7 +595,9 @@ def run(tier, seed, model_ok, translator, search=False):
     out.rule = ("pairs (t, mutate t) for every single-aspect mutation of a random table (0-6 rows, 0-4 columns of "
                 "kinds int/float/bool/str/object/datetime/Int64/Float64/boolean/string with NaN/None/NaT/pd.NA), "
                 "unrelated random pairs from a small and a large space, non-default indexes, subclass instances and "
-                "non-Table arguments; equals evaluated in both orders and on (a, a). Non-trivial: other is a Table "
+                "non-Table arguments (None, scalars, containers, plain DataFrame, and objects carrying the table's own "
+                "content: its backing TableDataFrame, a twin's, copies, Series, (name, df) tuples/lists, duck-typed "
+                "objects, repr, column proxies); equals evaluated in both orders and on (a, a). Non-trivial: other is a Table "
                 "and self has at least one column; distinct by the pair of table specs.")
     rng = make_rng(seed, "C14")
     ops, pend = [], []
